@@ -93,4 +93,48 @@ def device_get_nowait (dev name dflt : V) : PyM V :=
   | .none, _ => throw .AttributeError
   | _, _ => throw .unsupported
 
+/-! ### wire types (helpers/data_types.py) as primitives of the structure decoders -/
+
+/-- the one-field little-endian struct formats: (size, signed, float) -/
+def wireFmt (fmt : String) : Option (Nat × Bool × Bool) :=
+  if fmt = "<b" then some (1, true, false) else if fmt = "<B" then some (1, false, false)
+  else if fmt = "<h" then some (2, true, false) else if fmt = "<H" then some (2, false, false)
+  else if fmt = "<i" then some (4, true, false) else if fmt = "<I" then some (4, false, false)
+  else if fmt = "<q" then some (8, true, false) else if fmt = "<Q" then some (8, false, false)
+  else if fmt = "<f" then some (4, false, true) else if fmt = "<d" then some (8, false, true)
+  else Option.none
+
+/-- what the decoders observe of a wire-type instance: `.value` and `.size` (any other attribute: `unsupported`) -/
+def wireObj (cls : String) (value : V) (size : Nat) : V :=
+  mkobj cls [("value", value), ("size", .int size), ("*", .none)]
+
+/-- TRUSTED: `X.from_bytes(data, offset)` of a struct-backed wire type `X` (`_struct = struct.Struct(fmt)`, the
+format folded from the SOURCE by the translator): `data[offset:]` (lenient slice), then `struct.unpack_from`
+(`struct.error` when fewer than `size` bytes are left); the result as its observable `.value` / `.size`.  A float is
+carried as its bit pattern.  Contract = what `Props/TieTypes.lean` proves about the translated classes
+(`X_from_bytes_eq`, `X_value_eq`, `X_size_eq`). -/
+def wire_from_bytes (cls fmt : String) (data off : V) : PyM V := do
+  match wireFmt fmt with
+  | Option.none => throw .unsupported
+  | some (size, signed, isFloat) =>
+    match ← slice data off .none with
+    | .bytes b =>
+      if b.length < size then throw .StructError
+      else
+        let n := decodeLE (b.take size)
+        if isFloat then pure (wireObj cls (.float size n) size)
+        else if signed then
+          pure (wireObj cls (.int (if n < 256 ^ size / 2 then (n : Int) else (n : Int) - (256 ^ size : Nat))) size)
+        else pure (wireObj cls (.int n) size)
+    | _ => throw .unsupported
+
+/-- `math.isnan(x)`: a wire float by its bit pattern; an int is never NaN (ints too large for a float: OverflowError,
+not modelled) -/
+def math_isnan (x : V) : PyM V :=
+  match x with
+  | .float w bits => do pure (.bool (← floatIsNaN w bits))
+  | .int i => if i.natAbs < 2 ^ 1000 then pure (.bool false) else throw .unsupported
+  | .bool _ => pure (.bool false)
+  | _ => throw .TypeError
+
 end PlumVerif.Py
